@@ -2,6 +2,7 @@ import Ekit.Props.C08
 import Ekit.Props.C08HW
 import Ekit.Props.C08Heap
 import Ekit.Props.C08Rev
+import Driver.Ev.DelayQSoundC08
 open Ekit.DelayQ
 #print axioms c08_skel_DelayQueue_Dequeue
 #print axioms c08_skel_DelayQueue_Enqueue
@@ -60,3 +61,14 @@ open Ekit.DelayQ
 #print axioms Ekit.Heap.zag_zig
 -- the classical Herlihy–Wing form
 #print axioms Ekit.Props.HWForms.c08_heap_hw_linearizable_timed
+-- soundness of the synchronisation-event replayer of the DelayQueue (Driver/Ev/DelayQSound.lean): what the driver accepts of a
+-- real execution IS a run of the model, so the observed call history is linearizable and the final state satisfies the invariants
+#print axioms Driver.Ev.DQ.dq_sync_sound
+#print axioms Driver.Ev.DQ.dq_inv_sound
+#print axioms Driver.Ev.DQ.dq_res_sound
+#print axioms Driver.Ev.DQ.dq_replay_sound
+#print axioms Driver.Ev.DQ.dq_replay_reachable
+#print axioms Driver.Ev.DQ.c08_dq_evtrace_linearizable
+#print axioms Driver.Ev.DQ.c08_dq_evtrace_tlinearizable
+#print axioms Driver.Ev.DQ.c08_dq_evtrace_invariants
+#print axioms Driver.Ev.DQ.demo_accepted
